@@ -15,7 +15,10 @@ ASSUMPTIONS = ['model = Lang/Comment.v: Generator.comment_filter and the @deprec
 PIECES = ['*/', '/*', '//', '"', '\\', '@', '{', '}', '<', '>', '&', '`', '`code`', '*emph*', '_foo_/', '**/', '*//', '\\"', '\\\\', '%', '$', '#', "'",
           'text', 'a b', 'é', '\t', '&#47;', '*&', '/', '*', '?>', '<!--', '-->', ']]', '")]]', '"); int x;', '*/ int evil; /*', '\\n',
           '&quot;', '&#34;', '&#x22;', '&#10;', '&amp;', '&lt;', '&#92;', 'a fairly long run of ordinary words to reach the line limit ',
-          '\\u002a/', '\\\\u002a/', '\\u002A\\u002F', '\\uuu002a/', 'C:\\users', '\\u', '\\u00', '/\\u002a', '\\\\\\u002a/', 'u002a/', '\\u000a', 'ends in \\']
+          '\\u002a/', '\\\\u002a/', '\\u002A\\u002F', '\\uuu002a/', 'C:\\users', '\\u', '\\u00', '/\\u002a', '\\\\\\u002a/', 'u002a/', '\\u000a', 'ends in \\',
+          '\x0c int injected; ', '\x0b', '\x1c x; ', '\x1d', '\x1e', 'a\x0cb', '*\x0c/', '\\\x0cu002a/']
+# separators outside ASCII: handled by the implementation, outside the byte-level model (used in the generation runs only)
+WIDE_SEPS = ['\x85 int nel; ', '\u2028 int ls; ', '\u2029 ps; ']
 # pieces that end a LINE (the line-splicing defect needs the backslash at the end of a physical line)
 LINE_ENDS = ['\\', '\\ ', '\\\t', ' \\', 'C:\\', '\\\\', 'x']
 
@@ -206,14 +209,16 @@ def run(ctx):
         if c['k'] == 'filter':
             pairs.append('(comment_filter %s %s %s %s, %s)' % (copt(o['start'], cstr), copt(o['end'], cstr), cstr(o['prefix']), cstr(c['text']), cstr(v)))
             keep.append({'case': c, 'impl': v})
+            if len(v.splitlines()) != len(v.split('\n')):
+                ctx.add_violation({'kind': 'comment-contains-line-separator', 'generator': c['gen']},
+                                  "the generated comment contains a character that str.splitlines() (Jinja's indent filter) treats as a line break: "
+                                  'an indented comment gets a line without the comment prefix: %r' % v[:200], {'case': c, 'output': v})
             if o['end'] is not None:
                 term = o['end'].strip()
                 if v.count(term) != 1 or not v.endswith(term):
                     ctx.add_violation({'kind': 'comment-terminated-early', 'generator': c['gen']},
                                       'generated comment contains the terminator %d times: %r' % (v.count(term), v[:200]), {'case': c, 'output': v})
             else:
-                # line-comment generators: the model is the filter WITH the splice repair (Lang/Lexical.v line_doc)
-                pairs[-1] = '(line_doc %s %s, %s)' % (cstr(o['prefix']), cstr(c['text']), cstr(v))
                 if any(not ln.startswith(o['prefix'].rstrip()) for ln in v.split('\n')):
                     ctx.add_violation({'kind': 'line-comment-escaped', 'generator': c['gen']}, 'a line of the generated comment lacks the prefix: %r' % v[:200], {'case': c, 'output': v})
                 bad = [ln for ln in v.split('\n') if dangling(ln)]
@@ -236,6 +241,10 @@ def run(ctx):
                                   'after unicode-escape translation (JLS 3.3) the Javadoc comment is closed early: %r' % t[:200],
                                   {'case': c, 'output': v, 'as_javac_reads_it': t})
         else:
+            if len(v.splitlines()) > 1:
+                ctx.add_violation({'kind': 'deprecation-literal-broken-by-line-separator', 'generator': c['gen']},
+                                  "the deprecation attribute contains a character that str.splitlines() (Jinja's indent filter) treats as a line break: "
+                                  'the string literal is broken over two lines: %r' % v[:200], {'case': c, 'output': v})
             m = re.search(r'\((.*)\)', v, re.S)
             lits = c_literals(m.group(1)) if m else None
             if lits is None:
@@ -271,7 +280,10 @@ def run(ctx):
         variants = []
         bare = copy.deepcopy(p); set_comments(bare, lambda: None)
         variants.append(('bare', bare, False))
-        c1 = copy.deepcopy(p); set_comments(c1, lambda: [adversarial(r) for _ in range(r.randint(1, 2))] if r.random() < 0.8 else None)
+        def adv_gen():
+            t = adversarial(r)
+            return t + r.choice(WIDE_SEPS) if r.random() < 0.2 else t
+        c1 = copy.deepcopy(p); set_comments(c1, lambda: [adv_gen() for _ in range(r.randint(1, 2))] if r.random() < 0.8 else None)
         variants.append(('commented', c1, False))
         d1 = copy.deepcopy(p); d2 = copy.deepcopy(p)
         marks = []
